@@ -187,6 +187,11 @@ class PassState:
                 if (ref.logical_record_position.vr_position, ref.logical_record_position.lrsh_position) != (mrec['vr_pos'], mrec['lrsh_pos']):
                     cc.dev('index-frame-position', 'frame-position', 'frame type %d frame %d' % (t, i))
                     ok = False
+                if self.M[t][0][i].size != 1:
+                    # a frame type without a scalar index channel (e.g. waveforms only): which number stands for "the
+                    # first-channel value" of an array is not stated, the index X is not judged
+                    cc.cls('first-channel-is-an-array')
+                    continue
                 e = float(self.M[t][0][i].reshape(-1)[0])
                 g = float(ref.x_axis)
                 if not (g == e or (g != g and e != e)):
@@ -382,6 +387,6 @@ def make_machine(files):
 
 def parts(tier):
     # thorough: longer log passes (up to 150 frames per type) and longer histories
-    files = L.log_pass_files(max_frames=40) if tier == 'quick' else L.log_pass_files(max_frames=150)
+    files = L.log_pass_files(max_frames=40 if tier == 'quick' else 150, array_first_channel=True)
     return [MachinePart('populate-history', make_machine(files), engine.replay_machine_case(start, step), 1500, 40000,
                         steps=14 if tier == 'quick' else 24)]
